@@ -16,8 +16,8 @@ Print Assumptions C03b_reader_is_one_machine.
 
 (* the file json.dumps wrote has exactly one line per dict, whatever the strings hold *)
 Theorem C03b_ndjson_one_line_per_dict : forall (ea : bool) (docs : list Ndjson.doc),
-  Workbook.text_lines (Ndjson.ndjson_write ea docs) = map (fun d => Ndjson.json_object ea d ++ [10%N]) docs.
-Proof. exact NdjsonP.written_lines. Qed.
+  Ndjson.ndjson_lines (Ndjson.ndjson_write ea docs) = map (fun d => Ndjson.json_object ea d ++ [10%N]) docs.
+Proof. exact NdjsonP.written_lines_lib. Qed.
 Print Assumptions C03b_ndjson_one_line_per_dict.
 
 (* scanstring inverts the escaper on every string of the domain, whatever follows the closing quote *)
@@ -52,8 +52,8 @@ Print Assumptions C03b_utf8_roundtrip.
 
 (* from the BYTES on disk: the UTF-8 file csv.writer produced, decoded and read as the library reads it *)
 Theorem C03b_csv_bytes : forall (d : N) (T : list (list Csv.text)),
-  Csv.delim_ok d = true -> scalar d = true -> Csv.table_ok T = true -> forallb (forallb (forallb scalar)) T = true ->
-  from_bytes (Csv.csv_read d) (utf8 (Csv.csv_write d T)) = Some (Ok T).
+  Csv.delim_ok d = true -> scalar d = true -> Csv.table_ok_raw T = true -> forallb (forallb (forallb scalar)) T = true ->
+  from_bytes (Csv.lib_read d) (utf8 (Csv.csv_write d T)) = Some (Ok T).
 Proof. exact csv_bytes_roundtrip. Qed.
 Print Assumptions C03b_csv_bytes.
 
